@@ -98,10 +98,15 @@ def m_part(run, scr, nat):
     ix = {k: str(fr_fields.index(k)) for k in ("whole", "num", "den", "err")}
     # compose Number::value on every returned fraction before declaring anything to the solver
     results = []
+    value_panics = []
     for o in outs:
         if o.kind == "return" and isinstance(o.value, Enum) and "Some" in o.value.variants:
             num = o.value.variants["Some"].fields["0"]
-            back = [b for b in it.run(f_val, [num]) if b.kind == "return"]
+            all_back = it.run(f_val, [num])
+            for bp in all_back:
+                if bp.kind == "panic":
+                    value_panics.append((o, bp))
+            back = [b for b in all_back if b.kind == "return"]
             if len(back) != 1:
                 raise mir.Unsupported("Number::value on a concrete variant should have one path, got %d" % len(back))
             results.append((o, num, back[0]))
@@ -137,6 +142,9 @@ def m_part(run, scr, nat):
             confirm(run, nat, what, cands, ob)
         return cb
 
+    for (o, bp) in value_panics:
+        batch.add("Number::value of a returned number never panics / overflows (%s): path[%s]" % (str(bp.msg)[:40], ">".join(o.trace[-2:])),
+                  mcheck.pc_assert(o.pc) + mcheck.pc_assert(bp.pc), "unsat", fetch, on_sat("exactness"), also)
     n_frac = 0
     for i, (o, num, back) in enumerate(results):
         pcs = mcheck.pc_assert(o.pc)
